@@ -159,6 +159,7 @@ pub fn run_render(seed: u64, tier: &str, out: &mut Out) {
     let cps = |s: &str| if s.is_empty() { "-".to_string() } else { s.chars().map(|c| (c as u32).to_string()).collect::<Vec<_>>().join(",") };
     for case_no in 0..n {
         // a panic anywhere in a case (a draw during the history, the final draw, a getter) is a failure of that case
+        let desc = std::cell::RefCell::new(String::new());
         let r = std::panic::catch_unwind(std::panic::AssertUnwindSafe(|| {
         vh::set_auto_advance_ns(0); vh::set_now_ns(t0);
         let width = *rng.pick(&[30u16, 60, 100, 200]);
@@ -183,6 +184,7 @@ pub fn run_render(seed: u64, tier: &str, out: &mut Out) {
         let (pchars, clusters, cwid): (&str, &str, usize) = *rng.pick(&[("#>-", "35;62;45", 1), ("=>.", "61;62;46", 1), ("█▉▊▋▌▍▎▏  ", "9608;9609;9610;9611;9612;9613;9614;9615;32;32", 1), ("＃＞－", "65283;65310;65293", 2), ("ab", "97;98", 1)]);
         let rec = Recorder::new(60000, width, false);
         let pb = ProgressBar::with_draw_target(len, ProgressDrawTarget::term_like(Box::new(rec.clone()))).with_position(start_pos);
+        *desc.borrow_mut() = format!("template {tpl:?} length {len:?} start {start_pos} width {width}");
         let style = match ProgressStyle::with_template(&tpl) { Ok(s) => s, Err(_) => return };
         pb.set_style(style.tick_strings(&TICKS).progress_chars(pchars));
         let mut ticks: u64 = 0; let mut now = t0; let mut hist = Vec::new();
@@ -220,7 +222,7 @@ pub fn run_render(seed: u64, tier: &str, out: &mut Out) {
         else if panicked { out.emit(&case, &format!("panic ORACLE FAIL panic while drawing tpl={tpl:?} hist={}", hist.join(","))); }
         else { out.emit(&case, &format!("n={} {shown} ORACLE ok", lines.len())); }
     }));
-        if r.is_err() { out.emit(&format!("NOMODEL PANIC C11R case {case_no}"), &format!(" ORACLE FAIL panic while drawing or reading getters in C11R case {case_no} (same seed and tier reproduce it)")); }
+        if r.is_err() { out.emit(&format!("NOMODEL PANIC C11R case {case_no}"), &format!(" ORACLE FAIL panic while drawing or reading getters in C11R case {case_no} (same seed and tier reproduce it): {}", desc.borrow().replace('\n', "\\n"))); }
     }
 }
 
